@@ -25,8 +25,8 @@ pub const TEXTS: [(&str, &str); 6] = [
     ("S", "FUNCTION_BLOCK FbS\nVAR\n  a : INT;\nEND_VAR\n\n  a := ;\nEND_FUNCTION_BLOCK\n"),
     ("M", "FUNCTION_BLOCK FbM\nVAR\n  a : INT;\nEND_VAR\n  a := 1;\n  (* \u{e9}\u{20ac} *) undeclared := 2;\nEND_FUNCTION_BLOCK\n"),
     ("D", "FUNCTION_BLOCK FbD\nVAR\n  lv : Level := Low;\nEND_VAR\nEND_FUNCTION_BLOCK\n"),
-    // the same program as M in another layout (same tree, every offset different)
-    ("L", "(* moved *)\n\nFUNCTION_BLOCK FbM VAR a : INT; END_VAR\n\n      a := 1;\n   undeclared   :=   2;\nEND_FUNCTION_BLOCK\n"),
+    // the same program as M in another layout and with CRLF line ends (same tree, every offset different)
+    ("L", "(* moved *)\r\n\r\nFUNCTION_BLOCK FbM VAR a : INT; END_VAR\r\n\r\n      a := 1;\r\n   undeclared   :=   2;\r\nEND_FUNCTION_BLOCK\r\n"),
 ];
 
 fn text_of(k: usize) -> &'static str {
@@ -652,6 +652,40 @@ pub fn run(ctx: &mut Ctx) {
         hist_count += 1;
         if let Some(p) = problem {
             ctx.fail(&format!("many-documents/{}/{}", shape, kind_of(t)), &format!("{} other documents open, text {}: {}", n, kind_of(t), p), json!({"mode":"contents","contents":format!("many-documents n={} text={} {}", n, kind_of(t), shape)}));
+        }
+    }
+    // a notification that is no edit between two notifications for a faulty document
+    let mut notif_jobs = vec![];
+    for t in [1usize, 2, 3, 5] {
+        for (nname, msg) in neutral_notifications("file:///w/a.st", "file:///w/b.st") {
+            notif_jobs.push((t, nname, msg));
+        }
+    }
+    let notif_res: Vec<(usize, &'static str, Option<String>)> = notif_jobs
+        .par_iter()
+        .map(|(t, nname, msg)| {
+            let text = text_of(*t);
+            let mut s = MemSrv::new(None);
+            let first = s.step(&did_open("file:///w/a.st", 1, text));
+            let alone = first.msgs.iter().filter(|v| v["method"] == "textDocument/publishDiagnostics").last().map(crate::lspx::diag_set);
+            let mid = s.step(msg);
+            let o = s.step(&did_change("file:///w/a.st", 2, &[text]));
+            let _ = Box::new(s).finish();
+            let got = o.msgs.iter().filter(|v| v["method"] == "textDocument/publishDiagnostics" && v["params"]["uri"].as_str() == Some("file:///w/a.st")).last().map(crate::lspx::diag_set);
+            let problem = if mid.status != Status::Alive || o.status != Status::Alive {
+                Some("the server died".to_string())
+            } else if got != alone {
+                Some(format!("published {:?} after the notification, {:?} before it", got, alone))
+            } else {
+                None
+            };
+            (*t, *nname, problem)
+        })
+        .collect();
+    for (t, nname, problem) in notif_res {
+        hist_count += 1;
+        if let Some(p) = problem {
+            ctx.fail(&format!("diags-depend-on-a-notification-that-is-no-edit/{}", nname.split('(').next().unwrap_or(nname)), &format!("text {}, notification {}: {}", kind_of(t), nname, p), json!({"mode":"contents","contents":format!("notification {} text {}", nname, kind_of(t))}));
         }
     }
     ctx.bounds.insert("many_documents".into(), json!("N in 1,7,8,9,…,255,256,257 unrelated documents x 3 faulty texts x {re-sent to the same document, moved to another document}"));
